@@ -685,3 +685,13 @@ mutant("C07-M27", "C07", "R07g", "solution written back shifted by one", M, "Pop
 mutant("C07-M28", "C07", "R07g", "per-quantity mismatch compared without abs", M, "Population.initialize_compartments", 'if abs(proposed[i] - b[i]) > model_settings["tolerance"]:', 'if proposed[i] - b[i] > model_settings["tolerance"]:')
 mutant("C07-M29", "C07", "R07g", "right-hand side divided by the meta factor", M, "Population.initialize_compartments", "b[i] = par.interpolate(t_init, pop_name=self.name)[0] * par.y_factor[self.name] * par.meta_y_factor", "b[i] = par.interpolate(t_init, pop_name=self.name)[0] * par.y_factor[self.name] / par.meta_y_factor")
 twin("C07-T4", "C07", "residual written with the operands swapped", M, "Population.initialize_compartments", "residual = np.sum((proposed.ravel() - b.ravel()) ** 2)", "residual = np.sum((b.ravel() - proposed.ravel()) ** 2)")
+
+# ---- round 5 (third seeded change per property), first batch
+mutant("C02-M22", "C02", "R02g", "rescale factor cached on the compartment", M, "Compartment.resolve_outflows", "        n = rescale * self.vals[ti]", "        if getattr(self, \"_cached_rescale\", None) is None:\n            self._cached_rescale = rescale\n        rescale = self._cached_rescale\n        n = rescale * self.vals[ti]")
+mutant("C05-M27", "C05", "R05j", "keyring snap with np.isclose defaults", M, "_keyring_size", "if abs(n - round(n)) < 1e-9 * max(1.0, abs(n)):", "if np.isclose(n, round(n)):")
+mutant("C05-M28", "C05", "R05j", "keyring snap with a 1e-4 tolerance", M, "_keyring_size", "if abs(n - round(n)) < 1e-9 * max(1.0, abs(n)):", "if abs(n - round(n)) < 1e-4 * max(1.0, abs(n)):")
+twin("C05-T8", "C05", "keyring snap with explicit tight isclose", M, "_keyring_size", "if abs(n - round(n)) < 1e-9 * max(1.0, abs(n)):", "if np.isclose(n, round(n), rtol=1e-9, atol=1e-12):")
+mutant("C03-M21", "C03", "R03e", "time grid snap with np.isclose defaults", PJ, "_n_steps", "if abs(n - np.round(n)) < 1e-9 * max(1.0, abs(n)):", "if np.isclose(n, np.round(n)):")
+mutant("C04-M30", "C04", "R04f", "plain junction flush normalises only above 1", M, "JunctionCompartment.initial_flush", "            outflow_fractions /= np.sum(outflow_fractions)", "            if np.sum(outflow_fractions) > 1:\n                outflow_fractions /= np.sum(outflow_fractions)")
+mutant("C07-M30", "C07", "R07h", "plain junction flush normalises only above 1", M, "JunctionCompartment.initial_flush", "            outflow_fractions /= np.sum(outflow_fractions)", "            if np.sum(outflow_fractions) > 1:\n                outflow_fractions /= np.sum(outflow_fractions)")
+mutant("C06-M38", "C06", "R04e", "parameters not re-evaluated after the initial flush", M, "Model.process", "            self.update_pars()  # Update the transition parameters in case junction outflows are functions _and_ they depend on compartment sizes that just changed in the line above\n", "")
